@@ -510,6 +510,32 @@ func genCase(t *rapid.T) Case {
 			c.N, c.Clauses = gen.Pigeonhole(t, rapid.IntRange(2, 3).Draw(t, "holes"), gen.Chance(t, 1, 3, "drop"))
 		}
 	case "opb":
+		if gen.Chance(t, 1, 4, "knapsack") {
+			// two knapsack equalities, a weighted objective and a cost literal fixed by a unit constraint: with -cp the
+			// search takes hundreds of conflicts, its restarts and constraint-database reductions included
+			c.N = gen.Uniform(t, 14, 16, "n")
+			for i := 0; i < 2; i++ {
+				lits := gen.DistinctLits(t, c.N, gen.Uniform(t, c.N-2, c.N, "arity"), "l")
+				coefs := make([]int, len(lits))
+				sum := 0
+				for j := range lits {
+					if lits[j] < 0 {
+						lits[j] = -lits[j]
+					}
+					coefs[j] = gen.Uniform(t, 1, 30, "a")
+					sum += coefs[j]
+				}
+				c.Constrs = append(c.Constrs, gen.PC{Kind: "eq", Lits: lits, Coefs: coefs, K: gen.Uniform(t, sum/4, sum/2, "b")})
+			}
+			c.Constrs = append(c.Constrs, gen.PC{Kind: "gteq", Lits: []int{gen.Uniform(t, 1, c.N, "f")}, Coefs: []int{1}, K: 1})
+			cf := oracle.Cost{Lits: make([]int, c.N), W: make([]int, c.N)}
+			for v := 1; v <= c.N; v++ {
+				cf.Lits[v-1], cf.W[v-1] = v, gen.Uniform(t, 1, 12, "w")
+			}
+			c.Cost = &cf
+			c.Flags = append([]string{}, rapid.SampledFrom([][]string{{"-cp"}, {"-cp"}, {"-cp", "-verbose"}, {}}).Draw(t, "knapFlags")...)
+			return c
+		}
 		c.N, c.Constrs = gen.PBConstrs(t, gen.PBOpts{MinN: 1, MaxN: 9, MaxConstrs: 6, MaxArity: 5})
 		if gen.Chance(t, 2, 3, "objective") {
 			cf := gen.CostFunc(t, c.N, true)
@@ -580,7 +606,7 @@ func TestMain(m *testing.M) {
 func init() {
 	vf.Register(vf.Sub[Case]{Name: "cli", Quick: 700, Thorough: 6000, Gen: genCase, Check: check, Floor: 0.5,
 		Classes: map[string]float64{"kind-cnf": 0.05, "kind-opb": 0.05, "kind-wcnf": 0.05, "kind-bf": 0.05, "flag-count": 0.05, "flag-certified": 0.03, "flag-mus": 0.03, "flag-cp": 0.05, "flag-verbose": 0.05},
-		Rule:    "the executable is built from the tree and run on generated .cnf (odd clause shapes, 3-SAT, pigeonhole, clique-rich formulas mostly run with -cp), .opb (with/without objective of either sign), .wcnf and .bf files (conventional layout, n<=10) x flag sets {none, -verbose, -cp, -count, -verbose -count, -cp -verbose, -certified, -certified -verbose, -mus} (-certified is not combined with -cp: a RUP certificate cannot express the PB constraints that strategy learns, and the property lists the flags separately), plus unreadable paths, an unknown suffix and syntactically broken files; stdout is parsed: exactly one status line, the v line is a total model of the file, 's UNSATISFIABLE' only for unsatisfiable files, o lines strictly decreasing and ending in the brute-force optimum attained by the printed model, -count prints exactly the model count, the -certified lines replay as a RUP refutation, the -mus DIMACS block is a minimal unsatisfiable sub-multiset of the file; -verbose only adds comment lines; bad files: exit status != 0 and no answer line; non-trivial = file with >=2 constraints (or formula of size >=4, count >=2, an extracted MUS, a bad file)"})
+		Rule:    "the executable is built from the tree and run on generated .cnf (odd clause shapes, 3-SAT, pigeonhole, clique-rich formulas mostly run with -cp), .opb (with/without objective of either sign; knapsack equalities over 14..16 variables mostly run with -cp), .wcnf and .bf files (conventional layout, n<=10) x flag sets {none, -verbose, -cp, -count, -verbose -count, -cp -verbose, -certified, -certified -verbose, -mus} (-certified is not combined with -cp: a RUP certificate cannot express the PB constraints that strategy learns, and the property lists the flags separately), plus unreadable paths, an unknown suffix and syntactically broken files; stdout is parsed: exactly one status line, the v line is a total model of the file, 's UNSATISFIABLE' only for unsatisfiable files, o lines strictly decreasing and ending in the brute-force optimum attained by the printed model, -count prints exactly the model count, the -certified lines replay as a RUP refutation, the -mus DIMACS block is a minimal unsatisfiable sub-multiset of the file; -verbose only adds comment lines; bad files: exit status != 0 and no answer line; non-trivial = file with >=2 constraints (or formula of size >=4, count >=2, an extracted MUS, a bad file)"})
 }
 
 func TestCorpus(t *testing.T) { vf.Corpus(t) }
